@@ -327,7 +327,7 @@ struct Forker {
 	int errfd;
 	unsigned cpu_s, wall_s;
 	std::function<void()> prologue;      // executed in the child before every case (coin source / clock reset)
-	Forker() : errfd(-1), cpu_s(15), wall_s(120)
+	Forker() : errfd(-1), cpu_s(15), wall_s(3600)
 	{
 		char path[] = "/tmp/c12-err-XXXXXX";
 		errfd = mkstemp(path);
